@@ -652,6 +652,15 @@ static void rhumb_family(Ctx& c, const Base& k, const Inv& ki, const Rhumb& rh, 
   auto rpos = [&](unsigned m) { Res r; fill(r); rl.GenPosition(k.len, m, r.v[0], r.v[1], r.v[2]); r.a12 = 0; return r; };
   Res refD[2] = {rdir(Rhumb::ALL), rdir(Rhumb::ALL | Rhumb::LONG_UNROLL)}, refI = rinv(Rhumb::ALL), refP[2] = {rpos(RhumbLine::ALL), rpos(RhumbLine::ALL | RhumbLine::LONG_UNROLL)};
   e.sc_len = std::max(e.sc_len, std::fabs(refI.v[0]));
+  // LONG_UNROLL only decides how lon2 is reported: lat2 and S12 must not depend on it, and the two longitudes differ by whole turns
+  // (added after seeded change C12-r5s1: S12 computed from the REDUCED longitude difference when LONG_UNROLL is not set)
+  for (int w = 0; w < 2; ++w) {
+    const Res* rf = w ? refP : refD; const char* nm = w ? "RhumbLine::GenPosition" : "Rhumb::GenDirect";
+    auto sameornan = [](double x, double y) { return same(x, y) || (std::isnan(x) && std::isnan(y)); };
+    bool ok = sameornan(rf[0].v[0], rf[1].v[0]) && sameornan(rf[0].v[2], rf[1].v[2]);
+    if (ok && std::isfinite(rf[0].v[1]) && std::isfinite(rf[1].v[1])) { double d = std::remainder(rf[1].v[1] - rf[0].v[1], 360.0); ok = std::fabs(d) <= 4 * std::numeric_limits<double>::epsilon() * std::max(360.0, std::fabs(rf[1].v[1])); }
+    if (!ok) c.viol(std::string("value:C12/output-depends-on-LONG_UNROLL/") + nm + "/" + e.sname(), k.cls, J(e.base).f("lat2", rf[0].v[0]).f("lat2_unroll", rf[1].v[0]).f("lon2", rf[0].v[1]).f("lon2_unroll", rf[1].v[1]).f("S12", rf[0].v[2]).f("S12_unroll", rf[1].v[2]));
+  }
   for (int u = 0; u < 2; ++u) judge(e, A_PosVsDirect, "RhumbLine::Position-vs-Rhumb::Direct", D_RHDIRECT, refP[u], refD[u], 7, false, Rhumb::ALL, 0, 0, k.len);
   for (unsigned i = 0; i < 256; ++i) {
     unsigned m = mk_rhumb(i);
